@@ -60,7 +60,7 @@ impl Property for C19 {
         "exploration"
     }
     fn rule(&self) -> String {
-        "A case = secure server with max_clients 1-3 in states empty / pending present / full / busy, up to 6 clients holding good, foreign-key, foreign-protocol, wrong-host and short-lived tokens; honest handshake steps build the state; adversarial presentations take any request or response datagram ever emitted by a not-yet-connected client and present it from its own or another unproven address exactly, padded to any length up to 1400, truncated, bit-flipped, prefix-modified or repeated, plus random bytes; the clock is stepped past token expiry. Oracle per datagram from an address that is not connected: the result is None, or one datagram to the same address strictly shorter than the input (PacketToSend or the payload inside ClientConnected); inputs that carry neither a valid token (by provenance: unmodified or only padded request minted with the server's key, protocol, host and unexpired, and not already used - answered - from a different address) nor a valid response (unmodified response of the client pending at that address) get None; never a Payload or a ClientDisconnected. Non-trivial: the input decodes as a request or response kind and is >= 18 bytes. Distinct = hash of the decoded operation trace.".into()
+        "A case = secure server with max_clients 1-3 in states empty / pending present / full / busy, up to 6 clients (tokens may share a client id) holding good, foreign-key, foreign-protocol, wrong-host and short-lived tokens; honest handshake steps build the state; adversarial presentations take any request or response datagram ever emitted by a not-yet-connected client and present it from its own or another unproven address exactly, padded to any length up to 1400, truncated, bit-flipped, prefix-modified or repeated, plus random bytes; the clock is stepped past token expiry. Oracle per datagram from an address that is not connected: the result is None, or one datagram to the same address strictly shorter than the input (PacketToSend or the payload inside ClientConnected); inputs that carry neither a valid token (by provenance: unmodified or only padded request minted with the server's key, protocol, host and unexpired, and not already used - answered - from a different address) nor a valid response (unmodified response of the client pending at that address) get None; never a Payload or a ClientDisconnected. Non-trivial: the input decodes as a request or response kind and is >= 18 bytes. Distinct = hash of the decoded operation trace.".into()
     }
     fn assumptions(&self) -> Vec<String> {
         vec!["'valid' is decided by provenance and the harness's knowledge of key, protocol id, host list and expiry".into()]
@@ -69,7 +69,7 @@ impl Property for C19 {
         PbtCfg { cases: tier.pick(400_000, 8_000_000), max_len: tier.pick(500, 1500), shrink_ms: 120_000 }
     }
     fn required_labels(&self) -> Vec<&'static str> {
-        vec!["valid_request", "padded_request", "valid_response", "invalid_token_request", "server_full", "denied_reply", "challenge_reply", "connected_reply", "expired_request", "request_other_address", "bound_token_other_address"]
+        vec!["valid_request", "padded_request", "valid_response", "invalid_token_request", "server_full", "denied_reply", "challenge_reply", "connected_reply", "expired_request", "request_other_address", "bound_token_other_address", "shared_client_id"]
     }
     fn run_choices(&self, ctx: &mut Ctx) -> Outcome {
         let mut nw = NetWorld::new(ctx.src.u16() as u64);
@@ -79,8 +79,13 @@ impl Property for C19 {
         let mut kinds = vec![];
         for i in 0..n {
             let k = [TokKind::Good, TokKind::Good, TokKind::ForeignKey, TokKind::ForeignProtocol, TokKind::WrongHost, TokKind::ShortLived][ctx.src.weighted(&[8, 4, 2, 2, 2, 3])];
+            // several tokens may name the same client id (the same player asking twice, from two addresses)
+            let ident = if ctx.src.chance(90) { ctx.src.below(2) } else { 2 + i };
+            if i > 0 && ident < 2 {
+                ctx.label("shared_client_id");
+            }
             let spec = TokenSpec {
-                client_id: 70 + i as u64,
+                client_id: 70 + ident as u64,
                 user: i as u64,
                 expire_seconds: if k == TokKind::ShortLived { 2 } else { 600 },
                 timeout: 15,
